@@ -161,7 +161,7 @@ func TestC34(t *testing.T) {
 	collect := os.Getenv("DIFF_COLLECT") != ""
 	groups := map[string]*collected{}
 	r := evid.Rand(34)
-	n := evid.N(600, 4000)
+	n := evid.N(350, 4000)
 	perSource := map[string]int{}
 	for i := 0; i < n; i++ {
 		src := drawSource(r)
